@@ -52,8 +52,11 @@ class RT:
         return self.loops.get(k, {})
 
     # ---- iterables -----------------------------------------------------------------------
-    def begin(self, k, it):
+    def begin(self, k, it, ns=None):
         self.seen_loops.add(k)
+        h = self.spec(k).get("on_entry")
+        if h is not None and ns is not None:
+            h(ns)
         if isinstance(it, (SymSeq, SymRange)):
             return it
         if isinstance(it, SymMap):
@@ -426,7 +429,9 @@ def sum_(x, start=0):
     s = _seq_of(x)
     if isinstance(s, SymSeq):
         c = ctx()
-        e0 = lift(s.at(z3.IntVal(0)))
+        jq = z3.Int(c.name("js"))
+        with c.quantified(z3.And(jq >= 0, jq < s.n)):
+            e0 = lift(s.at(jq))
         bs = BigSum(s.n, lambda j: s.at(j), e0.sort() if e0.sort() in (INT, REAL) else REAL, "sum")
         if not hasattr(c, "sums"):
             c.sums = []
@@ -447,21 +452,14 @@ def _quant(x, is_all):
             seq, fn, flt = x, (lambda v: v), None
         c = ctx()
         j = z3.Int(c.name("q"))
-        # evaluate the body on the bound variable; decisions inside the body are not allowed
-        saved = c.decide
-        def no_decide(cond, label=""):
-            if isinstance(cond, bool):
-                return cond
-            raise Unsupported("branching inside a quantified comprehension body")
-        c.decide = no_decide
-        try:
+        # evaluate the body on the bound variable; decisions inside must be determined by the guard
+        guard = z3.And(j >= 0, j < lift(seq.length()))
+        with c.quantified(guard):
             el = seq.at(j)
-            body = lift(fn(el))
-            guard = z3.And(j >= 0, j < lift(seq.length()))
             if flt is not None:
                 guard = z3.And(guard, lift(flt(el)))
-        finally:
-            c.decide = saved
+        with c.quantified(guard):
+            body = lift(fn(el))
         if is_all:
             return Sym(z3.ForAll([j], z3.Implies(guard, body)))
         return Sym(z3.Exists([j], z3.And(guard, body)))
